@@ -29,7 +29,7 @@ def body(run):
         lambda: exe.__setitem__(0, run.go_build("scsend")),
     ]
     if not q:
-        jobs += [lambda: run.tlc("ScToken", "ScToken", "ScToken_rel_t.cfg", label="contract: every lifetime 1..20000 ms", workers=4, timeout=3000),
+        jobs += [lambda: run.tlc("ScToken", "ScToken", "ScToken_rel_t.cfg", label="contract: every lifetime 2..20000 ms", workers=4, timeout=3000),
                  lambda: run.tlc("ScToken", "ScToken", "ScToken_rel_gen_t.cfg", mode="gen", count=False, label="rows: 50 ms grid", timeout=3000)]
     res = run.parallel(*jobs)
     if res[2].violated != "InvRenewWindow" or res[3].violated != "InvUsable":
